@@ -149,6 +149,9 @@ type run struct {
 	idleCalls  int
 	ctxErr     map[int]bool // Go items whose function returned the context's error
 
+	mx    *mxPlan // connection matrix cases
+	mxCur *mxCall
+
 	holdSpan bool // finish does not release the span functions
 	prevSpan *run // the previous event's run, whose span functions this event releases
 }
